@@ -5,12 +5,15 @@ import GoDcp.Model.Startup
 Two layers.
 
 * `GoDcp.load` (Model/Session.lean, the model of `checkpoint.Load`, shared with C01–C06):
-  `load_ok_implies_reachable_start`, `checkpoint_ahead_failstop`, `load_keys`.
+  `load_ok_implies_reachable_start`, `checkpoint_ahead_failstop`, `partial_seqnos_missing_is_zero`, `load_keys`.
 * `Startup.start` (Model/Startup.lean, the guards of `dcp.Start` / `stream.Open` around it):
   `unknown_type_failstop`, `load_error_failstop`, `seqno_error_failstop` (+ its refutation
   for the client as it is, finding F7, and the `_partial` form), `failover_error_failstop`,
   `openAll_any_error_failstop`, `session_complete_or_dead`, `running_start_reachable`,
-  and the delivery-before-refusal witness (`refusal_without_delivery_refuted` / `_partial`).
+  the delivery-before-refusal witness (`refusal_without_delivery_refuted` / `_partial`),
+  the partial seqno answer (`partial_answer_stored_positive_failstop`, `partial_answer_missing_starts_at_zero`,
+  `running_start_within_reported`) and a stream ended by the server with a re-openable status, during
+  start-up or later (`ended_during_startup_reopened`, `running_every_vbucket_live`, `reopen_refused_failstop`).
 
 All statements are for all assignments, stores, high-seqno vectors and failure sets.
 -/
@@ -94,6 +97,28 @@ theorem checkpoint_ahead_failstop (s : St) (vb : Vb) (d : Doc) (hvb : vb ∈ vbR
 example : load { cfg := { lo := 0, hi := 1 }, store := [(1, ⟨7, 11, 1, 11⟩)], high := [(0, 5), (1, 10)] } = none := by decide
 example : (load { cfg := { lo := 0, hi := 1 }, store := [(1, ⟨7, 10, 1, 11⟩)], high := [(0, 5), (1, 10)] }).isSome = true := by decide
 
+/-- **partial_seqnos_missing_is_zero**: a vBucket the seqno answer does not mention reads as high seqno 0
+    (`seqNoMap.Load` of a missing key), so ANY stored seqno above 0 of such an assigned vBucket makes
+    `checkpoint.Load` panic – the missing entry is never taken as "nothing to compare with" -/
+theorem partial_seqnos_missing_is_zero (s : St) (vb : Vb) (d : Doc) (hvb : vb ∈ vbRange s.cfg)
+    (hst : s.store.get? vb = some d) (hmiss : s.high.get? vb = none) (hpos : d.seq > 0) : load s = none := by
+  apply checkpoint_ahead_failstop s vb d hvb hst
+  unfold highOf
+  rw [hmiss]
+  exact hpos
+
+/-- and when `Load` returns, such a vBucket starts at 0 (both branches) -/
+theorem partial_seqnos_missing_start_zero (s : St) (offs : AMap Offset) (dirty : List Vb) (any : Bool)
+    (h : load s = some (offs, dirty, any)) (p : Vb × Offset) (hp : p ∈ offs) (hmiss : s.high.get? p.1 = none) :
+    p.2.seq = 0 := by
+  have := load_ok_implies_reachable_start s offs dirty any h p hp
+  unfold highOf at this
+  rw [hmiss] at this
+  simpa using this
+
+example : load { cfg := { lo := 0, hi := 1 }, store := [(1, ⟨7, 1, 1, 1⟩)], high := [(0, 5)] } = none := by decide
+example : (load { cfg := { lo := 0, hi := 1 }, store := [(1, ⟨7, 0, 0, 0⟩)], high := [(0, 5)] }).isSome = true := by decide
+
 /-! ## the guards around it -/
 
 theorem unknown_metadata_failstop (c : Case) (h : knownMetadata c.metaType = false) :
@@ -120,7 +145,8 @@ theorem running_inv (c : Case) (offs : List (Vb × Offset)) (h : start c = .runn
     c.seq ≠ .errPropagated ∧
     (latestBranch (seenState c) && (vbRange (seenState c).cfg).any c.flogErr.contains) = false ∧
     (∃ d a, load (seenState c) = some (offs, d, a)) ∧
-    offs.any (fun p => c.openErr.contains p.1) = false := by
+    offs.any (fun p => c.openErr.contains p.1) = false ∧
+    offs.any (fun p => c.ended.contains p.1 && c.reopenErr.contains p.1) = false := by
   unfold start at h
   by_cases h1 : knownMetadata c.metaType = true
   case neg => simp [h1] at h
@@ -142,9 +168,57 @@ theorem running_inv (c : Case) (offs : List (Vb × Offset)) (h : start c = .runn
     by_cases h6 : (o.any fun p => c.openErr.contains p.1) = true
     · rw [if_pos h6] at h; exact absurd h (by simp)
     · rw [if_neg h6] at h
-      injection h with h
-      subst h
-      exact ⟨h1, h2, by simpa using h3, h4, by simpa using h5, ⟨d, a, rfl⟩, by simpa using h6⟩
+      by_cases h7 : (o.any fun p => c.ended.contains p.1 && c.reopenErr.contains p.1) = true
+      · rw [if_pos h7] at h; exact absurd h (by simp)
+      · rw [if_neg h7] at h
+        injection h with h
+        subst h
+        exact ⟨h1, h2, by simpa using h3, h4, by simpa using h5, ⟨d, a, rfl⟩, by simpa using h6, by simpa using h7⟩
+
+theorem seenState_cfg (c : Case) : (seenState c).cfg = c.st.cfg := by
+  unfold seenState; split <;> rfl
+
+theorem seenState_store (c : Case) : (seenState c).store = c.st.store := by
+  unfold seenState; split <;> rfl
+
+/-- an answer with some vBuckets left out: the others read as before, the left-out ones are absent -/
+theorem get?_filter_key (l : AMap Nat) (g : Vb → Bool) (vb : Vb) :
+    AMap.get? (l.filter fun p => g p.1) vb = if g vb = true then AMap.get? l vb else none := by
+  induction l with
+  | nil => simp [AMap.get?]
+  | cons h t ih =>
+    obtain ⟨k, v⟩ := h
+    by_cases hk : k = vb
+    · subst hk
+      by_cases hg : g k = true
+      · simp [hg, AMap.get?]
+      · simp only [List.filter_cons, hg, Bool.false_eq_true, if_false] at ih ⊢
+        exact ih
+    · by_cases hg : g k = true
+      · simp only [List.filter_cons, hg, if_true, AMap.get?, hk, if_false]
+        exact ih
+      · simp only [List.filter_cons, hg, Bool.false_eq_true, if_false, AMap.get?, hk]
+        exact ih
+
+/-- what `checkpoint.Load` reads for a vBucket under a partial answer -/
+theorem seen_high_missing (c : Case) (vbs : List Vb) (hs : c.seq = .missing vbs) (vb : Vb) :
+    (seenState c).high.get? vb = if vbs.contains vb then none else c.st.high.get? vb := by
+  unfold seenState
+  rw [hs]
+  simp only
+  rw [get?_filter_key c.st.high (fun k => !vbs.contains k) vb]
+  cases vbs.contains vb <;> simp
+
+/-- whatever the answer was, the client never reads MORE than the server's true high seqno -/
+theorem seen_high_le_true (c : Case) (vb : Vb) : highOf (seenState c) vb ≤ trueHigh c vb := by
+  unfold highOf trueHigh
+  cases hs : c.seq with
+  | missing vbs =>
+    rw [seen_high_missing c vbs hs]
+    split <;> simp
+  | errSwallowed => simp [seenState, hs, AMap.get?]
+  | ok => simp [seenState, hs]
+  | errPropagated => simp [seenState, hs]
 
 theorem load_error_failstop (c : Case) (h : c.loadErr = true) : ∀ offs, start c ≠ .running offs := by
   intro offs hr
@@ -165,12 +239,14 @@ theorem seqno_error_failstop_refuted :
   ⟨{ metaType := "couchbase", memberType := "static", seq := .errSwallowed,
      st := { cfg := { lo := 0, hi := 0, finite := true }, high := [(0, 10)] } }, rfl, rfl, by decide⟩
 
-/-- `_partial`: for every answer EXCEPT the swallowed one the statement holds -/
-theorem seqno_error_failstop_partial (c : Case) (hne : c.seq ≠ .ok) (hf7 : c.seq ≠ .errSwallowed) :
-    ∀ offs, start c ≠ .running offs := by
+/-- `_partial`: for every ERROR answer except the swallowed one the statement holds (a partial answer with
+    status success, `SeqAnswer.missing`, is not an error: see the section on partial answers below) -/
+theorem seqno_error_failstop_partial (c : Case) (hne : c.seq ≠ .ok) (hnm : ∀ vbs, c.seq ≠ .missing vbs)
+    (hf7 : c.seq ≠ .errSwallowed) : ∀ offs, start c ≠ .running offs := by
   cases hs : c.seq with
   | ok => exact absurd hs hne
   | errSwallowed => exact absurd hs hf7
+  | missing vbs => exact absurd hs (hnm vbs)
   | errPropagated => exact seqno_error_failstop c hs
 
 /-- a failover-log error on an assigned vBucket is fatal whenever the log is consulted
@@ -180,7 +256,7 @@ theorem failover_error_failstop (c : Case) (hl : latestBranch (seenState c) = tr
   intro offs hr
   have := (running_inv c offs hr).2.2.2.2.1
   obtain ⟨vb, hvb, hin⟩ := h
-  have hcfg : (seenState c).cfg = c.st.cfg := by unfold seenState; split <;> rfl
+  have hcfg : (seenState c).cfg = c.st.cfg := seenState_cfg c
   have : (vbRange (seenState c).cfg).any c.flogErr.contains = true := by
     rw [List.any_eq_true]; exact ⟨vb, by rw [hcfg]; exact hvb, by simpa using hin⟩
   simp_all
@@ -189,8 +265,8 @@ theorem failover_error_failstop (c : Case) (hl : latestBranch (seenState c) = tr
     vBucket (no partial assignment), and no assigned vBucket's request was refused -/
 theorem session_complete_or_dead (c : Case) (offs : List (Vb × Offset)) (h : start c = .running offs) :
     offs.map (·.1) = vbRange c.st.cfg ∧ ∀ vb ∈ vbRange c.st.cfg, vb ∉ c.openErr := by
-  obtain ⟨_, _, _, _, _, ⟨d, a, hl⟩, hno⟩ := running_inv c offs h
-  have hcfg : (seenState c).cfg = c.st.cfg := by unfold seenState; split <;> rfl
+  obtain ⟨_, _, _, _, _, ⟨d, a, hl⟩, hno, _⟩ := running_inv c offs h
+  have hcfg : (seenState c).cfg = c.st.cfg := seenState_cfg c
   have hk := load_keys _ _ _ _ hl
   rw [hcfg] at hk
   refine ⟨hk, ?_⟩
@@ -216,12 +292,147 @@ theorem running_start_reachable (c : Case) (offs : List (Vb × Offset)) (h : sta
     ∀ p ∈ offs, p.2.seq ≤ trueHigh c p.1 := by
   obtain ⟨_, _, _, _, _, ⟨d, a, hl⟩, _⟩ := running_inv c offs h
   intro p hp
-  have := load_ok_implies_reachable_start _ _ _ _ hl p hp
-  unfold highOf seenState at this
-  unfold trueHigh
-  split at this
-  · simp [AMap.get?] at this; omega
-  · exact this
+  exact Nat.le_trans (load_ok_implies_reachable_start _ _ _ _ hl p hp) (seen_high_le_true c p.1)
+
+/-! ## a partial GET_ALL_VB_SEQNOS answer -/
+
+/-- what the client reads is what the server reported -/
+theorem seen_high_eq_reported (c : Case) (hne : c.seq ≠ .errSwallowed) (vb : Vb) :
+    highOf (seenState c) vb = reportedHigh c vb := by
+  unfold highOf reportedHigh trueHigh
+  cases hs : c.seq with
+  | missing vbs =>
+    rw [seen_high_missing c vbs hs]
+    simp only
+    split <;> simp_all
+  | errSwallowed => exact absurd hs hne
+  | ok => simp [seenState, hs]
+  | errPropagated => simp [seenState, hs]
+
+/-- **never requests a stream from a position the server has not REPORTED**: under a partial answer a
+    running session starts every left-out vBucket at 0 and every other one at or below its reported high seqno -/
+theorem running_start_within_reported (c : Case) (hne : c.seq ≠ .errSwallowed) (offs : List (Vb × Offset))
+    (h : start c = .running offs) : ∀ p ∈ offs, p.2.seq ≤ reportedHigh c p.1 := by
+  obtain ⟨_, _, _, _, _, ⟨d, a, hl⟩, _⟩ := running_inv c offs h
+  intro p hp
+  rw [← seen_high_eq_reported c hne]
+  exact load_ok_implies_reachable_start _ _ _ _ hl p hp
+
+/-- **partial_answer_stored_positive_failstop**: an assigned vBucket that the seqno answer leaves out and that
+    has a stored checkpoint above 0 never leaves a running session – whatever the TRUE high seqno is -/
+theorem partial_answer_stored_positive_failstop (c : Case) (vbs : List Vb) (hs : c.seq = .missing vbs)
+    (vb : Vb) (d : Doc) (hvb : vb ∈ vbRange c.st.cfg) (hmiss : vb ∈ vbs)
+    (hst : c.st.store.get? vb = some d) (hpos : d.seq > 0) : ∀ offs, start c ≠ .running offs := by
+  intro offs hr
+  obtain ⟨_, _, _, _, _, ⟨dd, a, hl⟩, _⟩ := running_inv c offs hr
+  have hnone : load (seenState c) = none := by
+    apply partial_seqnos_missing_is_zero (seenState c) vb d
+    · rw [seenState_cfg]; exact hvb
+    · rw [seenState_store]; exact hst
+    · rw [seen_high_missing c vbs hs]; simp [hmiss]
+    · exact hpos
+  rw [hnone] at hl
+  exact absurd hl (by simp)
+
+/-- and it fails with the class of the checkpoint guard when the earlier guards pass (what stream c15w observes) -/
+theorem partial_answer_stored_positive_class (c : Case) (vbs : List Vb) (hs : c.seq = .missing vbs)
+    (hm : knownMetadata c.metaType = true) (hb : knownMembership c.memberType = true) (hl : c.loadErr = false)
+    (vb : Vb) (d : Doc) (hvb : vb ∈ vbRange c.st.cfg) (hmiss : vb ∈ vbs)
+    (hst : c.st.store.get? vb = some d) (hpos : d.seq > 0) : start c = .fail "checkpoint-ahead" := by
+  have hex : (mdLoad (seenState c)).2 = true :=
+    exist_of_stored (seenState c) vb d (by rw [seenState_cfg]; exact hvb) (by rw [seenState_store]; exact hst)
+  have hnone : load (seenState c) = none := by
+    apply partial_seqnos_missing_is_zero (seenState c) vb d
+    · rw [seenState_cfg]; exact hvb
+    · rw [seenState_store]; exact hst
+    · rw [seen_high_missing c vbs hs]; simp [hmiss]
+    · exact hpos
+  unfold start
+  simp [hm, hb, hl, hs, latestBranch, hex, hnone]
+
+/-- **partial_answer_missing_starts_at_zero**: when start-up does run under a partial answer, every left-out
+    vBucket is requested from seqno 0 (no checkpoint or a stored 0; auto-reset `latest` included) -/
+theorem partial_answer_missing_starts_at_zero (c : Case) (vbs : List Vb) (hs : c.seq = .missing vbs)
+    (offs : List (Vb × Offset)) (h : start c = .running offs) : ∀ p ∈ offs, p.1 ∈ vbs → p.2.seq = 0 := by
+  obtain ⟨_, _, _, _, _, ⟨d, a, hl⟩, _⟩ := running_inv c offs h
+  intro p hp hin
+  apply partial_seqnos_missing_start_zero _ _ _ _ hl p hp
+  rw [seen_high_missing c vbs hs]; simp [hin]
+
+/-- non-vacuity: the demo of the seeded change (4 vBuckets, stored 100, high 500, vBucket 3 left out) -/
+example : start
+    { metaType := "couchbase", memberType := "static", seq := .missing [3],
+      st := { cfg := { lo := 0, hi := 3 },
+              store := [(0, ⟨1, 100, 1, 100⟩), (1, ⟨1, 100, 1, 100⟩), (2, ⟨1, 100, 1, 100⟩), (3, ⟨1, 100, 1, 100⟩)],
+              high := [(0, 500), (1, 500), (2, 500), (3, 500)] } } = .fail "checkpoint-ahead" := by decide
+example : start
+    { metaType := "couchbase", memberType := "static", seq := .missing [1],
+      st := { cfg := { lo := 0, hi := 1 }, store := [(0, ⟨1, 100, 1, 100⟩)], high := [(0, 500), (1, 500)] } }
+    = .running [(0, ⟨1, 100, 1, 100, maxU64⟩), (1, ⟨0, 0, 0, 0, maxU64⟩)] := by decide
+
+/-! ## a stream the server ends with a re-openable status -/
+
+/-- **reopen_refused_failstop**: an assigned vBucket whose stream ended and whose re-open attempts are all
+    refused never leaves a running session (reopenStream gives up with a panic after its bounded retries) -/
+theorem reopen_refused_failstop (c : Case) (h : ∃ vb ∈ vbRange c.st.cfg, vb ∈ c.ended ∧ vb ∈ c.reopenErr) :
+    ∀ offs, start c ≠ .running offs := by
+  intro offs hr
+  obtain ⟨vb, hvb, he, hr'⟩ := h
+  have hk := (session_complete_or_dead c offs hr).1
+  obtain ⟨_, _, _, _, _, _, _, hno⟩ := running_inv c offs hr
+  rw [← hk, List.mem_map] at hvb
+  obtain ⟨p, hp, rfl⟩ := hvb
+  have := List.any_eq_false.mp hno p hp
+  simp at this
+  exact this he hr'
+
+/-- **ended_during_startup_reopened**: in a running session every assigned vBucket whose stream the server
+    ended – while `openAllStreams` was still opening the others or later, the model does not distinguish because
+    the code does not – has been requested AGAIN, from the very offset of its first request, and that request
+    was not refused -/
+theorem ended_during_startup_reopened (c : Case) (offs : List (Vb × Offset)) (h : start c = .running offs)
+    (vb : Vb) (hvb : vb ∈ vbRange c.st.cfg) (he : vb ∈ c.ended) :
+    vb ∉ c.reopenErr ∧ ∃ o, (vb, o) ∈ offs ∧ (vb, o) ∈ reRequests c offs := by
+  constructor
+  · intro hr
+    exact reopen_refused_failstop c ⟨vb, hvb, he, hr⟩ offs h
+  · have hk := (session_complete_or_dead c offs h).1
+    rw [← hk, List.mem_map] at hvb
+    obtain ⟨p, hp, rfl⟩ := hvb
+    refine ⟨p.2, hp, ?_⟩
+    unfold reRequests
+    rw [List.mem_filter]
+    exact ⟨hp, by simpa using he⟩
+
+/-- **running_every_vbucket_live** (the clause the monitor of stream c15w evaluates on the node's log): in a
+    running session every assigned vBucket has more accepted stream requests than pushed ends – no vBucket of
+    the assignment is silently without a stream -/
+theorem running_every_vbucket_live (c : Case) (offs : List (Vb × Offset)) (h : start c = .running offs)
+    (vb : Vb) (hvb : vb ∈ vbRange c.st.cfg) : liveStreams c offs vb ≥ 1 := by
+  have hk := (session_complete_or_dead c offs h).1
+  have hvb' := hvb
+  rw [← hk, List.mem_map] at hvb'
+  obtain ⟨p, hp, hpv⟩ := hvb'
+  have h1 : (offs.filter fun q => q.1 == vb).length ≥ 1 :=
+    List.length_pos_of_mem (List.mem_filter.mpr ⟨hp, by simp [hpv]⟩)
+  unfold liveStreams requestsOf endsOf
+  by_cases he : c.ended.contains vb = true
+  · have hin : vb ∈ c.ended := by simpa using he
+    obtain ⟨_, o, _, hre⟩ := ended_during_startup_reopened c offs h vb hvb hin
+    have h2 : ((reRequests c offs).filter fun q => q.1 == vb).length ≥ 1 :=
+      List.length_pos_of_mem (List.mem_filter.mpr ⟨hre, by simp⟩)
+    rw [if_pos he]
+    omega
+  · rw [if_neg he]
+    omega
+
+/-- non-vacuity: vBucket 0 of 2 ended – requested twice, live; with its re-requests refused – fail-stop -/
+example : start
+    { metaType := "couchbase", memberType := "static", ended := [0],
+      st := { cfg := { lo := 0, hi := 1 } } } = .running [(0, ⟨0, 0, 0, 0, maxU64⟩), (1, ⟨0, 0, 0, 0, maxU64⟩)] := by decide
+example : start
+    { metaType := "couchbase", memberType := "static", ended := [0], reopenErr := [0],
+      st := { cfg := { lo := 0, hi := 1 } } } = .fail "reopen-gave-up" := by decide
 
 /-! ## delivery before refusal -/
 
